@@ -602,9 +602,6 @@ def check_merges(repo: Repo, res: Result, interp: A.Interp, tails: set, final_di
             else:
                 res.add("C06.R2", construct, True, "a single dict-level copy: keys stay distinct", where_, kind="structural")
     res.floor("C06.R2", 1, n2)
-    for d in final_dicts:
-        if not per_dict.get(d):
-            res.undecide("C06.R2", parse_key + "::returned relation", "no store into the returned dependencies dict is recognised", parse_where)
 
 
 def fills_fresh_dict(e: A.Event, per_dict: dict) -> bool:
